@@ -185,6 +185,20 @@ def run_case(case, res):
             got_nodes = None
             target = None
             copied_sources = None
+            if rng.random() < 0.35 and len(src_nodes) >= 2:
+                # a copy attempt that must be refused (illegal position) comes first: it may not leave anything behind
+                victim_t = rng.choice([x for x in src_nodes if x is not src] + [src_t])
+                wrong = src  # `before` must be a child of the target; src is not a child of victim_t unless it is its parent
+                if not any(c is wrong for c in victim_t.children):
+                    try:
+                        rng.choice([lambda: victim_t.add(src, before=wrong, **({"kind": "kz"} if typed else {})),
+                                    lambda: src.copy_to(victim_t, before=wrong),
+                                    lambda: victim_t.add(src, before="garbage", **({"kind": "kz"} if typed else {}))])()
+                        res.count("refused_attempt_not_refused")
+                    except Exception:
+                        res.count("refused_attempts_first")
+                    if ident(src_t) != before_src:
+                        bad.append("a copy attempt refused for its illegal position changed the source tree")
             if route == "tree_copy":
                 cp = src_t.copy()
                 if type(cp) is not type(src_t):
@@ -280,7 +294,18 @@ def run_case(case, res):
                     sources = list(src_t.children)
                     deep = rng.choice([None, True, False])
                     before = pick_before(target)
-                    holder_call = lambda deep: target.add(src_t, before=before, deep=deep)
+                    meth = rng.choice(["add", "add_child", "append_child", "prepend_child"])
+                    if meth in ("append_child", "prepend_child") and (not hasattr(target, "append_child") or typed):
+                        meth = "add"
+                    if meth == "append_child":
+                        before = None
+                        holder_call = lambda deep: target.append_child(src_t, **({} if deep is None else {"deep": deep}))
+                    elif meth == "prepend_child":
+                        before = True
+                        holder_call = lambda deep: target.prepend_child(src_t, **({} if deep is None else {"deep": deep}))
+                    else:
+                        holder_call = lambda deep: getattr(target, meth)(src_t, before=before, deep=deep)
+                    res.count(f"add_tree_via:{meth}")
                 kb = kids_of(target)
                 ids_new = [s.data_id for s in sources]
                 collide = any(c.data_id in ids_new for c in kb)
